@@ -175,9 +175,19 @@ func (svg *SVGImage) drawNode(dst backend.Canvas, node *svgNode, dims drawingDim
 
 		doFill, doStroke := svg.applyPainters(dst, node, dims)
 
-		var vertices []vertex
+		var (
+			vertices []vertex
+			hasPath  bool // whether the node itself built a path to be painted
+		)
 		if visible && node.graphicContent != nil {
-			vertices = node.graphicContent.draw(dst, &node.attributes, svg, dims)
+			switch node.graphicContent.(type) {
+			case line, rect, polyline, ellipse, path:
+				shape := pathRecorder{Canvas: dst}
+				vertices = node.graphicContent.draw(&shape, &node.attributes, svg, dims)
+				hasPath = shape.hasPath
+			default:
+				vertices = node.graphicContent.draw(dst, &node.attributes, svg, dims)
+			}
 		}
 
 		// then recurse
@@ -223,7 +233,7 @@ func (svg *SVGImage) drawNode(dst backend.Canvas, node *svgNode, dims drawingDim
 
 		// do the actual painting :
 		// paint by filling and stroking the given node onto the graphic target
-		if paint && !isText {
+		if paint && !isText && hasPath {
 			dst.Paint(newPaintOp(doFill, doStroke, node.isFillEvenOdd))
 		}
 
@@ -252,6 +262,33 @@ func hasEmptyViewbox(node *svgNode) bool {
 	_, isSvg := node.graphicContent.(svg)
 	vb := node.viewbox
 	return isSvg && vb != nil && (vb.Width == 0 || vb.Height == 0)
+}
+
+// pathRecorder notes whether a shape emitted at least one path construction call
+// (containers, hidden and degenerate shapes do not: there is nothing to paint)
+type pathRecorder struct {
+	backend.Canvas
+	hasPath bool
+}
+
+func (p *pathRecorder) Rectangle(x, y, width, height Fl) {
+	p.hasPath = true
+	p.Canvas.Rectangle(x, y, width, height)
+}
+
+func (p *pathRecorder) MoveTo(x, y Fl) {
+	p.hasPath = true
+	p.Canvas.MoveTo(x, y)
+}
+
+func (p *pathRecorder) LineTo(x, y Fl) {
+	p.hasPath = true
+	p.Canvas.LineTo(x, y)
+}
+
+func (p *pathRecorder) CubicTo(x1, y1, x2, y2, x3, y3 Fl) {
+	p.hasPath = true
+	p.Canvas.CubicTo(x1, y1, x2, y2, x3, y3)
 }
 
 // vertices are the resolved vertices computed when drawing the shape
